@@ -299,7 +299,7 @@ impl<R> PythonArguments<R> {
 
         let mut kw_only = Vec::with_capacity(kwonlyargs.len());
         let kw_defaults: Vec<_> = std::iter::repeat_with(|| None)
-            .take(kw_only.len().saturating_sub(kw_defaults.len()))
+            .take(kwonlyargs.len().saturating_sub(kw_defaults.len()))
             .chain(kw_defaults.into_iter().map(Some))
             .collect();
         for (arg, default) in std::iter::zip(kwonlyargs, kw_defaults) {
